@@ -64,13 +64,38 @@ def build(work, tier):
         p.labels = {'post': {cname: sp.labels}}
         p.expect_post = len(sp.labels)
         proofs.append(p)
+    # ---- what "the user's own bare JID" is: the real QXmppConfiguration::jidBare (the value the two handlers compare the outer sender with)
+    cprof = opaque_profile(
+        types={'QXmppConfiguration': 'QXmppConfiguration', 'QXmppConfigurationPrivate': 'QXmppConfigurationPrivate',
+               'QSharedDataPointer<QXmppConfigurationPrivate>': 'QXmppConfigurationPrivate'},
+        class_types={'QXmppConfiguration', 'QXmppConfigurationPrivate'},
+        calls={'op->:QXmppConfigurationPrivate': ('expr', '{0}'), 'op+:qstr:quint16': ('fn', 'qstr_concat_char')})
+    cb = Builder('C11', work, cprof)
+    csp = cb.spec('jidbare.spec')
+    CFG = 'src/client/QXmppConfiguration.cpp'
+    ctxt2 = cb.lower(Target(CFG, 'QXmppConfiguration::jidBare', 'jidBare', 'QXmppConfiguration_jidBare', this='QXmppConfiguration', parent=None), csp)
+    crec, _ = ctx.emit_record(os.path.join(REPO, CFG), 'QXmppConfigurationPrivate', 'QXmppConfigurationPrivate', 'QXmppConfigurationPrivate', cprof, opaque_ok=True)
+    c = ('#include "opaque.h"\n' + cprof.literal_ids.table() + cb.context() + '\n' + cb.subst(rd('cfgmodel.h')) + '\n' + crec +
+         '\ntypedef struct QXmppConfiguration { QXmppConfigurationPrivate d; } QXmppConfiguration;\n' + '\n'.join(getattr(cb, 'lifted', [])) + '\n' + ctxt2 +
+         '\nvoid h_jidBare(void) { QXmppConfiguration *self; QXmppConfiguration_jidBare(self); }\n')
+    f = cb.write('Configuration_jidBare.c', c)
+    p = Proof('Configuration_jidBare', f, 'h_jidBare', enforce='QXmppConfiguration_jidBare', kind='complete', include_dirs=[QT], timeout=300, loop_contracts=False,
+              note='loop-free getter, every configuration (all members arbitrary, strings opaque): the own bare JID is user@domain, or the domain for an account without user part; the resource never enters it')
+    p.labels = {'post': {'QXmppConfiguration_jidBare': csp.labels}}
+    p.expect_post = len(csp.labels)
+    proofs.append(p)
+    b.functions.extend(cb.functions)
+    b.dropped.extend(cb.dropped)
+    for k, v in cb.fired.items():
+        b.fired[k] = b.fired.get(k, 0) + v
     return {
         'proofs': proofs, 'functions': b.functions, 'dropped': b.dropped, 'fired': b.fired, 'hooks': [],
         'assumed': ['A-DOM abstract DOM (qtmodel/opaque.h): tagName/attribute are functions of the node; firstChildElement returns null or a matching child',
                     'opaque-string axioms: equality only', 'QXmppMessage::parse records the element it parsed and resets carbonForwarded (units/C11/model.h); the parser itself is not verified here',
-                    'client()->configuration().jidBare() is a pure getter of the configured bare JID',
+                    'client()->configuration().jidBare() in the handlers denotes the result of QXmppConfiguration::jidBare (verified separately against user@domain / domain: proof Configuration_jidBare) on the client\'s configuration; that the configuration does not change during handleStanza is assumed',
+                    'QSharedDataPointer<QXmppConfigurationPrivate> is its payload held by value (copy-on-write sharing not modelled); QString + QChar is the opaque concatenation with a non-empty one-character string',
                     'injectMessage / messageSent / messageReceived deliver the message object unchanged (event log)'],
-        'assumes': scan_assumes(rd('model.h') + open(os.path.join(QT, 'opaque.h')).read()),
+        'assumes': scan_assumes(rd('model.h') + rd('cfgmodel.h') + open(os.path.join(QT, 'opaque.h')).read()),
         'not_covered': ['QXmppMessage::parse itself (what "exactly the inner message" contains is whatever the message parser produces from the inner element)'],
     }
 
@@ -78,6 +103,11 @@ def build(work, tier):
 def find_input(unit, proof, ob, label, work):
     """concretisation table (DESIGN 6, C11): the opaque sender becomes a battery of look-alike strings on the real library"""
     from vlib import native
+    if getattr(proof, 'id', '') == 'Configuration_jidBare':
+        rc, out = native.run_driver(os.path.join(HERE, 'replay_jidbare.cpp'), [])
+        bad = [l for l in out.splitlines() if l.startswith('VIOLATED')]
+        return {'inputs': {'driver': 'units/C11/replay_jidbare.cpp', 'args': [], 'meaning': '4 user parts x 3 domains x 3 hosts x 3 resources x 2 ports on the real QXmppConfiguration',
+                           'first_failing_probes': bad[:6]}, 'native_output': out[-3000:], 'reproduced': rc == 1}
     rc, out = native.run_driver(os.path.join(HERE, 'replay_carbon.cpp'), [])
     bad = [l for l in out.splitlines() if l.startswith('VIOLATED')]
     return {'inputs': {'driver': 'units/C11/replay_carbon.cpp', 'args': [], 'meaning': 'two own JIDs x 13 look-alike outer senders x sent/received x both manager generations',
@@ -86,5 +116,8 @@ def find_input(unit, proof, ob, label, work):
 
 def native_replay(rp):
     from vlib import native
+    if 'jidbare' in str((rp.get('inputs') or {}).get('driver', '')):
+        rc, out = native.run_driver(os.path.join(HERE, 'replay_jidbare.cpp'), [])
+        return rc == 1, out[-3000:]
     rc, out = native.run_driver(os.path.join(HERE, 'replay_carbon.cpp'), [])
     return rc == 1, out[-3000:]
